@@ -187,6 +187,64 @@ def check_probe(ctx, label, files):
     return True
 
 
+def boundary_programs(ctx):
+    """functions whose jump distances sit in a window around the 16-bit limit of the encoder: per kind of jump
+    (Loop of a while, JumpIfFalse of an if, Jump over an else, PushHandler of a try, CheckHandler of a catch clause)
+    bodies of n two-byte statements plus 0/1 three-byte statement, so that every distance in the window occurs"""
+    d = os.path.join(common.VERIF, "work", "c06_boundary_%s" % ctx.tier)
+    os.makedirs(d, exist_ok=True)
+    files = []
+    shapes = {
+        "while": "fn f(c) { let n = 0; while c { %s n = n + 1; if n > 2 { c = false; } } return n; }\n",
+        "if": "fn f(c) { if c { %s } return 1; }\n",
+        "ifelse": "fn f(c) { if c { %s } else { c; } return 1; }\n",
+        "else": "fn f(c) { if c { c; } else { %s } return 1; }\n",
+        "try": "fn f(c) { try { %s } catch e: Error { return 2; } return 1; }\n",
+        "catch": "fn f(c) { try { c; } catch e: TypeError { %s } catch e2: Error { return 2; } return 1; }\n",
+        "for": "fn f(c) { for x in [1, 2] { %s } return 1; }\n",
+    }
+    step = 1 if not ctx.quick() else 2
+    for kind, tpl in shapes.items():
+        for n in range(32748, 32772, step):
+            for odd in (0, 1):
+                body = "nil; " * n + ("c; " if odd else "")
+                f = os.path.join(d, "%s_%d_%d.lay" % (kind, n, odd))
+                with open(f, "w") as fh:
+                    fh.write(tpl % body + "print(1);\n")
+                files.append(f)
+    return files
+
+
+def check_boundary(ctx, label="jump_boundary"):
+    """The functions of `boundary_programs` that the compiler accepts go through the encode tie (they are too long for the
+    list-based verifier): the model encoder refuses a distance it cannot express, so an accepted function whose jump
+    does not fit its operand shows as a difference; rejected ones must be rejected with the jump diagnostic, not a crash."""
+    files = boundary_programs(ctx)
+    funs, stats = dumps.dump_functions(files, timeout=2400)
+    acc = [f for f in funs if 'name="f"' in f["head"] and f.get("CODE") is not None]
+    crashed = [(fl, st) for fl, st in stats if st.startswith(("PANIC", "CRASH"))]
+    if crashed:
+        ctx.cov["impl_vs_spec_failures"] += 1
+        ctx.violation(label + "_crash", {"kind": "implementation-vs-spec", "what": "the compiler crashed on a function at the jump-distance limit: " + crashed[0][1][:200],
+                                         "file": crashed[0][0], "program": open(crashed[0][0]).read()[:300] + " ... (generated: see file name kind_n_odd)"})
+        return False
+    rc, out, err = common.run_lines([common.DRIVER, "encode"], [f["POST"] for f in acc], timeout=2400)
+    for f, o in zip(acc, out):
+        code = f["CODE"].strip()
+        same = len(o) == len(code) and all(a == b or a == "?" for a, b in zip(o, code))
+        ctx.count_case(("boundary", f["file"]), nontrivial=True)
+        if not same:
+            ctx.cov["impl_vs_spec_failures"] += 1
+            ctx.violation(label + "_spec", {"engine": "encode", "kind": "implementation-vs-spec",
+                                            "what": "the compiler accepted a function whose jump distance the 16-bit operand cannot express (or encoded it differently "
+                                                    "from the model encoder): the emitted jump does not land on its label",
+                                            "file": f["file"], "function": f["head"], "model": o[:200], "impl_code_prefix": code[:200],
+                                            "program": "generated by c06.boundary_programs: " + os.path.basename(f["file"]) + " (kind_n_odd: n two-byte statements `nil;` plus `odd` three-byte statement `c;` in the body)"})
+            return False
+    ctx.stream_stat(label, programs=len(files), accepted=len(acc), rejected=len(files) - len(acc))
+    return True
+
+
 def search(ctx):
     """A broken obligation: look for a program whose emitted code the verifier rejects (10x budget)."""
     files = write_programs(ctx, 3000, "search")
@@ -220,6 +278,8 @@ def run(ctx):
     if not proved:
         what, detail = ctx.broken
         found = search(ctx)
+        if not found and not check_boundary(ctx):
+            return
         if found:
             found["broken_obligation"] = what
             found["detail"] = detail[-1500:]
@@ -245,6 +305,8 @@ def run(ctx):
         cf = sorted(os.path.join(corpus, f) for f in os.listdir(corpus) if f.endswith(".lay"))
     fx = [f for f in dumps.fixture_files() if "/language/" in f and "native_stack_overvflow" not in f]
     if not check_probe(ctx, "probe", cf + files[:ctx.n(300, 5000)] + fx[:ctx.n(150, 400)]):
+        return
+    if not check_boundary(ctx):
         return
     ctx.assumptions += [
         "vmEffect (pops, pushes per instruction) is hand-written from vm/ops.rs; it is tied to the interpreter by the probe stream (every executed offset's depth and handler count must equal the certificate), not proved from the Rust",
